@@ -37,6 +37,7 @@ CONSTANTS
     MultiRead, \* all channels with several readers
     LenVecs,   \* set of input-length vectors (one entry per source) = set of initial states
     Mode,      \* "full": all interleavings; "por": ample-set reduction
+    SeedChecked, \* TRUE: EMA/RMA/SMMA check ok on their seed read (code since fix 2ac43f9); FALSE: pinned commit
     W,         \* declared warm-up (idle period) of the pipeline
     Off        \* Off[p] for sinks: documented extra lag of that output (0 normally)
 
@@ -165,7 +166,9 @@ AfterClosed(p) ==
     [] k = "Operate3" /\ pc = "da" -> L("db", 0, NoTok, <<>>)
     [] k = "Operate3" /\ pc = "db" -> L("dc3", 0, NoTok, <<>>)
     [] k = "Operate3" /\ pc = "dc3" -> L("close", 0, NoTok, <<>>)
-    [] k = "XmaCore" /\ pc = "seed" -> L("send0", 0, ZeroTok, <<>>)   \* ok is not checked by the code
+    [] k = "XmaCore" /\ pc = "seed" ->                                 \* no seed: return (fix 2ac43f9);
+          IF SeedChecked THEN L("close", 0, NoTok, <<>>)                \* before it: ok ignored, a zero was sent
+                         ELSE L("send0", 0, ZeroTok, <<>>)
     [] k = "KamaCore" /\ pc \in {"first", "rc"} -> L("dc", 0, NoTok, <<>>)
     [] k = "KamaCore" /\ pc = "rsc" -> L("send", 0, l.v, <<>>)          \* ok is not checked by the code
     [] k = "KamaCore" /\ pc = "dc" -> L("dsc", 0, NoTok, <<>>)
